@@ -221,6 +221,29 @@ fn future_write(mode: u8, code: u32) {
                             core::mem::forget(writer);
                         }
                     }
+                } else if mode == 4 {
+                    // the host completed the write and the event was DELIVERED to the task, but the operation is cancelled before it is
+                    // polled again (a timeout, `select!` taking another branch): the delivered code is the outcome, and the host must not
+                    // be asked to cancel a write that is no longer in flight (future.cancel-write on an idle end traps)
+                    note_write_code(code);
+                    vassert!(unsafe { host::deliver(0, FW, code) });
+                    fl().cancel_answer = CANCELLED; // what a host would wrongly be asked for
+                    let c = fut.as_mut().cancel();
+                    vassert!(fl().cancel_write == 0, "C20: a write whose completion was already delivered is not cancelled at the host");
+                    match c {
+                        RawFutureWriteCancel::AlreadySent => {
+                            vassert!(code == COMPLETED, "C20: AlreadySent exactly when the delivered code says the value was taken");
+                            vassert!(fl().lift == 0 && fl().dealloc_lists == 1 && fl().drop_writable == 1);
+                        }
+                        RawFutureWriteCancel::Dropped(v) => {
+                            vassert!(code == DROPPED, "C20: Dropped exactly when the delivered code says the reader is gone");
+                            vassert!(v == 55 && fl().lift == 1 && fl().lift_src == fl().lower_dst && fl().drop_writable == 1);
+                        }
+                        RawFutureWriteCancel::Cancelled(v, writer) => {
+                            vassert!(false, "C20: a delivered completion must not be reported as a cancellation (the value would be written twice)");
+                            core::mem::forget(writer);
+                        }
+                    }
                 } else {
                     fl().cancel_answer = code;
                     // dropped below
@@ -261,6 +284,8 @@ crate::verif_host_stubs! { #[cfg_attr(kani, kani::unwind(5))] fn c20_write_deliv
 crate::verif_host_stubs! { #[cfg_attr(kani, kani::unwind(5))] fn c20_write_cancel_completed() { #[cfg(kani)] future_write(2, COMPLETED); } }
 crate::verif_host_stubs! { #[cfg_attr(kani, kani::unwind(5))] fn c20_write_cancel_dropped() { #[cfg(kani)] future_write(2, DROPPED); } }
 crate::verif_host_stubs! { #[cfg_attr(kani, kani::unwind(5))] fn c20_write_cancel_cancelled() { #[cfg(kani)] future_write(2, CANCELLED); } }
+crate::verif_host_stubs! { #[cfg_attr(kani, kani::unwind(5))] fn c20_write_delivered_then_cancelled_completed() { #[cfg(kani)] future_write(4, COMPLETED); } }
+crate::verif_host_stubs! { #[cfg_attr(kani, kani::unwind(5))] fn c20_write_delivered_then_cancelled_dropped() { #[cfg(kani)] future_write(4, DROPPED); } }
 crate::verif_host_stubs! { #[cfg_attr(kani, kani::unwind(5))] fn c20_write_dropped_inflight_completed() { #[cfg(kani)] future_write(3, COMPLETED); } }
 crate::verif_host_stubs! { #[cfg_attr(kani, kani::unwind(5))] fn c20_write_dropped_inflight_cancelled() { #[cfg(kani)] future_write(3, CANCELLED); } }
 
